@@ -837,7 +837,11 @@ def check_order(eng, rep):
         if ok:
             rep.ok('E4.O4-order-chain', '%s|delegates' % x.defp, 'Some(self.cmp(other))')
         else:
-            rep.violation('E4.O4-order-chain', '%s|delegates' % x.defp, 'partial_cmp is not Some(self.cmp(other))', where=x.where())
+            rs_ = [p.ret for p in eng.paths(x) if p.end == 'return' and p.ret]
+            if rs_ and all(r_[0] == 'adt' and r_[1].endswith('Option') for r_ in rs_) and not any(isinstance(y, tuple) and y and y[0] == 'call' and y[1] == b.defp for r_ in rs_ for y in subterms(r_)):
+                rep.violation('E4.O4-order-chain', '%s|delegates' % x.defp, 'partial_cmp does not go through cmp: the partial order can disagree with the total one', where=x.where())
+            else:
+                rep.indet('E4.O4: partial_cmp of BitSeq outside the recognised fragment')
 
 
 def key_of(eng, body, t):
